@@ -81,6 +81,17 @@ def model_integral(spec, data, factors_kind):
     # volume at data resolution
     if tuple(dshape) == tuple(shape):
         Vd = V
+    elif any(d < s for s, d in zip(shape, dshape)) and any(d > s for s, d in zip(shape, dshape)):
+        # integer factors per axis, some axes coarser and some finer: aggregate blocks along the coarser axes, split
+        # uniformly along the finer ones
+        Vd = V
+        for ax, (s_, d_) in enumerate(zip(shape, dshape)):
+            if d_ < s_:
+                ff = s_ // d_
+                Vd = np.add.reduce(Vd.reshape(Vd.shape[:ax] + (d_, ff) + Vd.shape[ax + 1:]), axis=ax + 1)
+            elif d_ > s_:
+                ff = d_ // s_
+                Vd = np.repeat(Vd, ff, axis=ax) / ff
     elif all(s % d == 0 for s, d in zip(shape, dshape)) and all(d <= s for s, d in zip(shape, dshape)):
         f = [s // d for s, d in zip(shape, dshape)]  # coarser: aggregate blocks
         Vd = np.zeros(dshape)
@@ -180,6 +191,12 @@ def make_data(rng, darsia, spec, desc, letter, cache):
         for _ in range(20):
             f = [int(rng.choice(divs(s))) for s in shape]
             dshape = tuple(s // ff for s, ff in zip(shape, f))
+            if letter == 3 and dim >= 2 and rng.random() < 0.5:
+                # "other": integer factors per axis, at least one axis finer and one coarser than the geometry's own
+                ax_f = int(rng.integers(0, dim))
+                dshape = tuple(shape[a] * int(rng.integers(2, 4)) if a == ax_f else dshape[a] for a in range(dim))
+                if not any(dshape[a] < shape[a] for a in range(dim)):
+                    continue
             if letter == 1 or 1 not in cache or dshape != cache[1][2]:
                 break
     trailing = {"scalar": (), "vector": (3,), "series": (4,), "series_vector": (4, 3)}[desc["payload"]]
